@@ -95,6 +95,21 @@ def cases(ctx):
             mode = MODES[int(rng.choice([2, 3, 8]))]
         case = {"pos": pos, "neg": neg, "ep": ep, "en": en, "sc": sc, "ec": ec, "kind": kind, "mode": list(mode), "K": K,
                 "_seed": int(rng.integers(1 << 31))}
+        if i % 20 == 3:
+            # the two classes on opposite sides of the 100-score switch of "dynamic" (99/100, 30/400, ...): it must resolve to replacement
+            a_, b_ = [(99, 100), (100, 99), (30, 400), (400, 30), (99, 300), (150, 60)][(i // 20) % 6]
+            allv_ = rng.permutation(a_ + b_).astype(float) * 0.25 - 7.0
+            case.update(pos=allv_[:a_], neg=allv_[a_:], ep=int(rng.choice([0, 0, 40])), en=int(rng.choice([0, 0, 25])), kind="asym-dynamic", K=8,
+                        mode=list(MODES[int(rng.choice([6, 7]))]))
+        if i % 23 == 6:
+            # 64-bit integer scores beyond 2**53 (fixed-point scores, nanosecond timestamps, hashed ranks): a sample without smoothing consists of
+            # source scores exactly - a detour through float64 rounds them to values the source does not have (the inclusion clause compares exactly)
+            n1, n2 = int(rng.integers(3, 30)), int(rng.integers(3, 30))
+            base_ = int(rng.choice([2 ** 53, 2 ** 60, -(2 ** 55), 2 ** 62]))
+            vals_ = base_ + rng.permutation(4 * (n1 + n2))[: n1 + n2].astype(np.int64) * int(rng.choice([1, 3]))
+            dt_ = np.uint64 if (base_ > 0 and rng.random() < 0.3) else np.int64
+            case.update(pos=vals_[:n1].astype(dt_), neg=vals_[n1:].astype(dt_), kind="bigint64", K=6,
+                        mode=list(MODES[int(rng.choice([0, 1, 4, 5, 6, 7, 9, 11]))]))
         if i % 25 == 13:
             # the requested fraction as an exact number (fractions.Fraction / decimal.Decimal from a parsed configuration): int(r * k) is then
             # exact, also where the binary product falls just short of the integer (0.29 * 100 = 28.999999999999996)
